@@ -318,6 +318,8 @@ NK = 11
 
 def g_single(ctx, rng, i):
     g = G()
+    if i % 8 == 7:
+        jm.line_histories(g, rng, gen, X)
     kind = i % NK
     mode = ["int", "dyadic", "int", "float"][(i // NK) % 4]
     deg = (i // (NK * 4)) % 2 == 0
